@@ -34,6 +34,8 @@ func runC10(c *Ctx) {
 	c05KeywordLookup(c, "C10.8")
 	c08Literals(c, "C10.9")
 	ruleStripQuotes(c, "C10.10")
+	ruleCurOncePerNext(c, "C10.11")
+	rulePresenceFlags(c, "C10.12")
 }
 
 // ---- C10.1 --------------------------------------------------------------------
